@@ -611,6 +611,16 @@ func axSegWam(code uint64) []axSeg {
 	return segs
 }
 
+// axIsCount: the named head is an array / map count or a string length (not an integer field).
+func axIsCount(segs []axSeg, name string) bool {
+	for _, s := range segs {
+		if s.name == name {
+			return s.major>>5 >= 2 && s.major>>5 <= 5
+		}
+	}
+	return false
+}
+
 var axCounts = []uint64{0, 1, 23, 24, 1 << 16, 1<<31 - 1, 1 << 31, 1<<32 - 1, 1 << 62, 1 << 63, 1<<64 - 1}
 
 func genC17auxcbor(o *Out, r *Rng, thorough bool) {
@@ -1034,6 +1044,12 @@ func genC04auxcbor(o *Out, r *Rng, thorough bool) {
 				add(t.kind, axRender(t.segs, name, c, -1))
 				if thorough {
 					add(t.kind, axRender(t.segs, name, c, 8))
+				}
+			}
+			// multiplicative-overflow probes (c04probes.go) at the count / length positions
+			if axIsCount(t.segs, name) {
+				for _, c := range mulOverflowProbes(64, true) {
+					add(t.kind, axRender(t.segs, name, c, -1))
 				}
 			}
 		}
